@@ -2538,7 +2538,7 @@ func (s *defineSetter) exec(vm *vm) {
 	descr := PropertyDescriptor{
 		Setter:       val,
 		Configurable: FLAG_TRUE,
-		Enumerable:   FLAG_TRUE,
+		Enumerable:   ToFlag(s.enumerable),
 	}
 
 	obj.defineOwnProperty(propName, descr, true)
